@@ -151,7 +151,7 @@ def templates(rng):
   """-> (name, source, expectation) ; expectation: list of (input, 'return'|'raise')"""
   w = rng.choice([1, 2, 4, 8, 16, 33, 64])
   n = rng.randrange(3, 14)
-  t = rng.randrange(15)
+  t = rng.randrange(16)
   H = HDR.format(w=w) + FL_HDR
   if t == 0:   # monotone, convergent
     body = f"""    s.a = InPort({w}); s.b = InPort({w}); s.x = Wire({w}); s.y = Wire({w})
@@ -324,6 +324,19 @@ def templates(rng):
     def up_out(): s.o @= s.x
     s.add_constraints( U({first}) < U({second}) )"""
     return "false-loop-with-a-block-joined-by-an-explicit-constraint", H, body, [({"a": rng.getrandbits(8)}, "return") for _ in range(3)]
+  if t == 15:  # the feedback read stands under a method call on a call result ( zext( s.x[0:h], w ).uint() ) or under an attribute of
+    # a subscripted call ( F-C11: those reads were dropped, the loop was scheduled as a chain )
+    w2 = max(w, 2) if w <= 64 else 8
+    if w2 > 32: w2 = 16
+    h = rng.randrange(1, w2)
+    rd = rng.choice([f"zext( s.x[0:{h}], {w2} ).uint()", f"sext( s.x[0:{h}], {w2} ).uint()", f"trunc( s.x, {h} ).uint()",
+                     f"int( zext( s.x[0:{h}], {w2} ).uint() )"])
+    body = f"""    s.a = InPort({w2}); s.x = Wire({w2}); s.y = Wire({w2})
+    @update
+    def up1(): s.x @= s.y | s.a
+    @update
+    def up2(): s.y @= {rd}"""
+    return "feedback-read-under-a-method-call-on-a-call-result", H, body, [({"a": rng.getrandbits(w2) | 1}, "return") for _ in range(4)]
   # t == 8: saturating min chain (convergent after several iterations)
   body = f"""    s.a = InPort({w}); s.x = Wire({w}); s.y = Wire({w})
     @update
